@@ -32,13 +32,22 @@ def generate(tmpl_name, repo=None):
 def trusted_items(text):
     """Mechanical scan of the generated file for assumed / trusted items."""
     items = []
-    for n, ln in enumerate(text.split('\n'), 1):
+    lines = text.split('\n')
+    for n, ln in enumerate(lines, 1):
         st = ln.strip()
         if st.startswith('//'):
             continue
         m = TRUST_RE.search(ln)
         if m:
-            items.append('%s @gen:%d: %s' % (m.group(1).split()[0], n, st[:160]))
+            desc = st
+            if 'external_body' in st and n < len(lines):
+                # name the function the attribute is attached to
+                k = n
+                while k < len(lines) and (lines[k].strip().startswith('#[') or not lines[k].strip()):
+                    k += 1
+                if k < len(lines):
+                    desc = 'external_body: ' + lines[k].strip()
+            items.append('%s @gen:%d: %s' % (m.group(1).split()[0], n, desc[:170]))
     return items
 
 
